@@ -1852,7 +1852,11 @@ class Wallet(object):
                                                                  address=address.address).first()
         if already_found_key:
             return self.key(already_found_key.id)
-        path = [pubk.path for pubk in public_keys if pubk.wallet.cosigner_id == self.cosigner_id][0]
+        own_key = [pubk for pubk in public_keys if pubk.wallet.cosigner_id == self.cosigner_id][0]
+        path = own_key.path
+        if own_key.depth and own_key.address_index is not None:
+            # Use index of the derived cosigner key, the address_index argument is the first index of a range of keys
+            address_index = own_key.address_index
         depth = self.cosigner[self.cosigner_id].main_key.depth + len(path.split("/")) - 1
         if not name:
             name = "Multisig Key " + '/'.join(public_key_ids)
